@@ -174,6 +174,10 @@ def plan(tier, seed):
                                                        {'interp': py('(lambda a: [(lambda: a + q)() for q in (1, 2)])(k)')}, '|',
                                                        {'interp': {'pipe': [py('a'), py("'unbound'")]}}]}),
          [['a', 'maybe', 0], ['k', 'int', 1]]),
+        ('lambda-default-from-outer', doc({'tag': 'p', 'children': [{'interp': py('(lambda a=k: a + 1)()')}, '|',
+                                                                   {'interp': py('(lambda k=k: k + 1)()')}, '|',
+                                                                   {'interp': py('(lambda k=k + 1, *r, **kw: k)()')}]}),
+         [['k', 'int', 1]]),
         ('fstring', doc({'tag': 'p', 'children': [{'interp': py("f'{k}-{k + 1}' + '%d' % k")}]}),
          [['k', 'int', 1]]),
         ('comprehension', doc({'tag': 'p', 'children': [{'interp': py('[q + k for q in (1, 2)]')}, '|',
